@@ -28,6 +28,33 @@ from mc.pool import pmap
 
 _SPECS = {}
 
+_SIMPLE = (type(None), bool, int, float, str, bytes)
+
+
+def generic_fingerprint(obj, skip=(), depth=2):
+    """Canonical text of the 'small' hidden state of an implementation object: every attribute whose
+    value is a scalar or a container of scalars (memo tables, cached name sets, counters, flags), recursing
+    `depth` levels into plain containers and attribute-bearing helpers. Used in dedup keys so that two
+    states are only merged when these fields agree - a cache added to the implementation later (the kind
+    of change that breaks history properties) then keeps histories apart without the check knowing its name."""
+
+    def canon(v, d):
+        if isinstance(v, _SIMPLE):
+            return repr(v)
+        if isinstance(v, (set, frozenset)):
+            return "{" + ",".join(sorted(canon(x, d) for x in v)) + "}"
+        if isinstance(v, (list, tuple)):
+            return "[" + ",".join(canon(x, d) for x in v) + "]" if len(v) <= 64 else f"[{len(v)} items]"
+        if isinstance(v, dict):
+            if len(v) > 64:
+                return f"{{{len(v)} keys}}"
+            return "{" + ",".join(sorted(f"{canon(k, d)}:{canon(x, d)}" for k, x in v.items())) + "}"
+        if d > 0 and hasattr(v, "__dict__") and type(v).__module__.startswith("numbers_parser"):
+            return type(v).__name__ + "(" + ",".join(f"{k}={canon(x, d - 1)}" for k, x in sorted(vars(v).items()) if k not in skip) + ")"
+        return type(v).__name__
+
+    return canon(obj, depth)
+
 
 def register(name, spec):
     _SPECS[name] = spec
